@@ -330,11 +330,15 @@ fn giant_fasta(m: usize, w: usize, cap: usize, crlf: bool, via_set: bool, alt: u
             rec.write(&mut wo).unwrap();
             let (wh, wlf, wj, wr) = profile(&wo);
             let o = rec.to_owned_record();
-            let back_o: seq_io::fasta::OwnedRecord = serde_json::from_str(&serde_json::to_string(&o).unwrap()).unwrap();
+            let owned_eq = std::panic::catch_unwind(std::panic::AssertUnwindSafe(|| {
+                let back_o: seq_io::fasta::OwnedRecord = serde_json::from_str(&serde_json::to_string(&o).unwrap()).unwrap();
+                back_o == o
+            }))
+            .unwrap_or(false);
             format!(
                 "{{\"k\":\"rec\",\"head\":{},\"nlines\":{},\"iterated\":{},\"len_hint\":{},\"sum\":{},\"owned\":{},\"full\":{},\"raw\":{},\"last_from_back\":{},\"lines\":[{}],\"write\":{{\"headline\":{},\"ends_lf\":{},\"joined_is_seq\":{},\"nlines\":{}}},\"serde_owned_eq\":{}}}",
                 jb(rec.head()), rec.num_seq_lines(), i, rec.seq_lines().len(), total, owned_seq.len(), rec.full_seq().len(), rec.seq().len(), back, lines.join(","),
-                jb(&wh), wlf, wj == owned_seq, wr.iter().map(|(_, c)| *c).sum::<usize>(), back_o == o
+                jb(&wh), wlf, wj == owned_seq, wr.iter().map(|(_, c)| *c).sum::<usize>(), owned_eq
             )
         };
         let mut serde_same = true;
@@ -344,10 +348,16 @@ fn giant_fasta(m: usize, w: usize, cap: usize, crlf: bool, via_set: bool, alt: u
             let errj = match &res { Some(Err(e)) => Some(crate::reader::fa::err_json(e)), _ => None };
             let ok = matches!(res, Some(Ok(())));
             // the records are described from a serde round trip of the set (C19), the set itself must say the same
-            let set2: seq_io::fasta::RecordSet = serde_json::from_str(&serde_json::to_string(&set).unwrap()).unwrap();
             let recs0: Vec<String> = if ok { set.into_iter().map(|r| describe(&r)).collect() } else { vec![] };
-            let recs: Vec<String> = if ok { set2.into_iter().map(|r| describe(&r)).collect() } else { vec![] };
-            serde_same = recs0 == recs;
+            // (a panic in the round trip or in reading the deserialised set is a matter of the round trip, not of the reader)
+            let rt = std::panic::catch_unwind(std::panic::AssertUnwindSafe(|| {
+                let set2: seq_io::fasta::RecordSet = serde_json::from_str(&serde_json::to_string(&set).unwrap()).unwrap();
+                let v: Vec<String> = if ok { set2.into_iter().map(|r| describe(&r)).collect() } else { vec![] };
+                v
+            }));
+            let recs: Vec<String> = match rt { Ok(v) => v, Err(_) => { serde_same = false; recs0.clone() } };
+            serde_same = serde_same && recs0 == recs;
+            let recs = recs0;
             first = recs.get(0).cloned().or(errj).unwrap_or_else(|| "{\"k\":\"none\"}".into());
             second = if recs.len() > 1 {
                 recs[1].clone()
@@ -393,13 +403,17 @@ fn giant_fastq(w: usize, cap: usize, crlf: bool, via_set: bool, qual_extra: usiz
         let mut set = seq_io::fastq::RecordSet::default();
         let describe = |rec: &seq_io::fastq::RefRecord| -> String {
             let o = rec.to_owned_record();
-            let back_o: seq_io::fastq::OwnedRecord = serde_json::from_str(&serde_json::to_string(&o).unwrap()).unwrap();
+            let (owned_eq, back_quallen) = std::panic::catch_unwind(std::panic::AssertUnwindSafe(|| {
+                let back_o: seq_io::fastq::OwnedRecord = serde_json::from_str(&serde_json::to_string(&o).unwrap()).unwrap();
+                (back_o == o, back_o.qual.len() as i64)
+            }))
+            .unwrap_or((false, -1));
             let mut wo = vec![];
             rec.write(&mut wo).unwrap();
             let wl: Vec<usize> = wo.split(|b| *b == b'\n').map(|l| l.len()).collect();
             format!(
                 "{{\"k\":\"rec\",\"serde_owned_eq\":{},\"serde_quallen\":{},\"written_line_lens\":{:?},\"head\":{},\"seqlen\":{},\"quallen\":{},\"oseqlen\":{},\"oquallen\":{},\"seq_first\":{},\"seq_last\":{},\"qual_first\":{},\"qual_last\":{}}}",
-                back_o == o, back_o.qual.len(), wl,
+                owned_eq, back_quallen, wl,
                 jb(rec.head()), rec.seq().len(), rec.qual().len(), o.seq.len(), o.qual.len(),
                 rec.seq().first().map(|b| *b as i64).unwrap_or(-1), rec.seq().last().map(|b| *b as i64).unwrap_or(-1),
                 rec.qual().first().map(|b| *b as i64).unwrap_or(-1), rec.qual().last().map(|b| *b as i64).unwrap_or(-1)
@@ -411,10 +425,15 @@ fn giant_fastq(w: usize, cap: usize, crlf: bool, via_set: bool, qual_extra: usiz
             let res = rdr.read_record_set(&mut set);
             let errj = match &res { Some(Err(e)) => Some(crate::reader::fq::err_json(e)), _ => None };
             let ok = matches!(res, Some(Ok(())));
-            let set2: seq_io::fastq::RecordSet = serde_json::from_str(&serde_json::to_string(&set).unwrap()).unwrap();
             let recs0: Vec<String> = if ok { set.into_iter().map(|r| describe(&r)).collect() } else { vec![] };
-            let recs: Vec<String> = if ok { set2.into_iter().map(|r| describe(&r)).collect() } else { vec![] };
-            serde_same = recs0 == recs;
+            let rt = std::panic::catch_unwind(std::panic::AssertUnwindSafe(|| {
+                let set2: seq_io::fastq::RecordSet = serde_json::from_str(&serde_json::to_string(&set).unwrap()).unwrap();
+                let v: Vec<String> = if ok { set2.into_iter().map(|r| describe(&r)).collect() } else { vec![] };
+                v
+            }));
+            let recs: Vec<String> = match rt { Ok(v) => v, Err(_) => { serde_same = false; recs0.clone() } };
+            serde_same = serde_same && recs0 == recs;
+            let recs = recs0;
             first = recs.get(0).cloned().or(errj).unwrap_or_else(|| "{\"k\":\"none\"}".into());
             second = if recs.len() > 1 {
                 recs[1].clone()
